@@ -132,7 +132,16 @@ func (d *DB) getLaunchedShards() map[uint64]struct{} {
 func (d *DB) onUpdatedShardInfo() {
 	if d.LaunchDeadline > 0 {
 		launchedShards := d.getLaunchedShards()
-		if len(launchedShards) == len(d.Shards) {
+		// every defined shard has to be launched, reports on shards that were
+		// never defined must not be counted
+		allLaunched := true
+		for shardID := range d.Shards {
+			if _, ok := launchedShards[shardID]; !ok {
+				allLaunched = false
+				break
+			}
+		}
+		if allLaunched {
 			plog.Infof("all shards have been launched")
 			d.LaunchDeadline = 0
 		} else {
